@@ -138,3 +138,115 @@ package tabular
 //@   requires [nested-cell-ok] dyn(c.raw) == type[Cell] ==> cellValOK(c.raw.(Cell))
 //@   assigns c.empty, c.mustCalc, c.str, c.width, c.height
 //@   ensures c.str == text(c.raw, world) && !c.mustCalc && c.raw == old(c.raw) && (c.empty <==> len(c.str) == 0)
+
+//@ -- ---------------------------------------------------------------------
+//@ -- properties (C12): a chain of immutable links viewed as a key -> value map
+//@ -- ---------------------------------------------------------------------
+
+//@ spec vp(p Iface) Loc = p.(*valueProperty)
+//@ spec vchain(hc (Array Loc Iface), p Iface) Iface = hc[fldloc(p.(*valueProperty), 0)]
+//@ spec vkey(hk (Array Loc Iface), p Iface) Iface = hk[fldloc(p.(*valueProperty), 1)]
+//@ spec vval(hv (Array Loc Iface), p Iface) Iface = hv[fldloc(p.(*valueProperty), 2)]
+//@ spec isvp(p Iface) bool = dyn(p) == type[*valueProperty]
+
+//@ -- lookup: the map view of a chain (hc, hk, hv: the heaps of the chain, key and val fields of valueProperty)
+//@ spec rec lookup(hc (Array Loc Iface), hk (Array Loc Iface), hv (Array Loc Iface), p Iface, k Iface) Iface = !isvp(p) ? nil : (vkey(hk, p) == k ? vval(hv, p) : lookup(hc, hk, hv, vchain(hc, p), k))
+
+//@ -- chainOK: links are whole allocated objects, keys non-nil and comparable, values non-nil, no key twice,
+//@ -- every link points to an older object (so chains are finite), terminated by nil or the empty property
+//@ spec rec chainOK(hc (Array Loc Iface), hk (Array Loc Iface), hv (Array Loc Iface), p Iface) bool = !isvp(p) ? (p == nil || (dyn(p) == type[*emptyProperty] && p == mkiface(type[*emptyProperty], box(p.(*emptyProperty))))) : (vp(p).base > 0 && vp(p).idx == 0 && vp(p).path == 0 && p == mkiface(type[*valueProperty], box(vp(p))) && vkey(hk, p) != nil && comparable(dyn(vkey(hk, p))) && vval(hv, p) != nil && (isvp(vchain(hc, p)) ==> vp(vchain(hc, p)).base < vp(p).base) && lookup(hc, hk, hv, vchain(hc, p), vkey(hk, p)) == nil && chainOK(hc, hk, hv, vchain(hc, p)))
+
+//@ spec chainMeasure(p Iface) int = isvp(p) ? vp(p).base : 0
+
+//@ -- a chain only depends on the links it reaches, all of which are older than any bound B above its head
+//@ lemma chain_frame(hc (Array Loc Iface), hk (Array Loc Iface), hv (Array Loc Iface), hc2 (Array Loc Iface), hk2 (Array Loc Iface), hv2 (Array Loc Iface), p Iface, B int)
+//@   requires forall l Loc :: {hc2[l]} l.base < B ==> hc2[l] === hc[l]
+//@   requires forall l Loc :: {hk2[l]} l.base < B ==> hk2[l] === hk[l]
+//@   requires forall l Loc :: {hv2[l]} l.base < B ==> hv2[l] === hv[l]
+//@   requires isvp(p) ==> vp(p).base < B
+//@   requires chainOK(hc, hk, hv, p)
+//@   ensures chainOK(hc2, hk2, hv2, p)
+//@   ensures forall k Iface :: {lookup(hc2, hk2, hv2, p, k)} lookup(hc2, hk2, hv2, p, k) === lookup(hc, hk, hv, p, k)
+//@   decreases chainMeasure(p)
+//@   unfold chainOK(hc, hk, hv, p)
+//@   unfold chainOK(hc2, hk2, hv2, p)
+//@   unfold chainOK(hc, hk, hv, vchain(hc, p))
+//@   unfold forall k Iface :: lookup(hc, hk, hv, p, k)
+//@   unfold forall k Iface :: lookup(hc2, hk2, hv2, p, k)
+//@   use chain_frame(hc, hk, hv, hc2, hk2, hv2, vchain(hc, p), B)
+//@   tags C12
+
+//@ func (*emptyProperty).Value
+//@   tags C12,C09
+//@   assigns nothing
+//@   ensures result == nil
+
+//@ func (*valueProperty).Value
+//@   tags C12,C09
+//@   requires v != nil && chainOK(heap[valueProperty.chain], heap[valueProperty.key], heap[valueProperty.val], mkiface(type[*valueProperty], box(v)))
+//@   decreases v.base
+//@   assigns nothing
+//@   ensures result == lookup(heap[valueProperty.chain], heap[valueProperty.key], heap[valueProperty.val], mkiface(type[*valueProperty], box(v)), key)
+//@   entry unfold chainOK(heap[valueProperty.chain], heap[valueProperty.key], heap[valueProperty.val], mkiface(type[*valueProperty], box(v)))
+//@   entry unfold lookup(heap[valueProperty.chain], heap[valueProperty.key], heap[valueProperty.val], mkiface(type[*valueProperty], box(v)), key)
+//@   entry unfold chainOK(heap[valueProperty.chain], heap[valueProperty.key], heap[valueProperty.val], v.chain)
+//@   entry unfold lookup(heap[valueProperty.chain], heap[valueProperty.key], heap[valueProperty.val], v.chain, key)
+
+//@ iface propertySet.Value
+//@   dispatch (*emptyProperty).Value, (*valueProperty).Value
+
+//@ func (*propertyImpl).GetProperty
+//@   tags C12,C09
+//@   requires pi != nil && chainOK(heap[valueProperty.chain], heap[valueProperty.key], heap[valueProperty.val], pi.properties)
+//@   assigns nothing
+//@   ensures [get-is-lookup] result == lookup(heap[valueProperty.chain], heap[valueProperty.key], heap[valueProperty.val], pi.properties, key)
+//@   entry unfold chainOK(heap[valueProperty.chain], heap[valueProperty.key], heap[valueProperty.val], pi.properties)
+//@   entry unfold lookup(heap[valueProperty.chain], heap[valueProperty.key], heap[valueProperty.val], pi.properties, key)
+
+//@ func withValue
+//@   tags C12,C09
+//@   requires [key-usable] key != nil && comparable(dyn(key))
+//@   assigns new(valueProperty)
+//@   ensures [node] isvp(result) && fresh(vp(result)) && vp(result).idx == 0 && vp(result).path == 0 && result == mkiface(type[*valueProperty], box(vp(result)))
+//@   ensures [fields] vchain(heap[valueProperty.chain], result) == parent && vkey(heap[valueProperty.key], result) == key && vval(heap[valueProperty.val], result) == val
+
+//@ func stripReturnValue
+//@   tags C12,C09
+//@   requires chainOK(heap[valueProperty.chain], heap[valueProperty.key], heap[valueProperty.val], ps)
+//@   decreases chainMeasure(ps)
+//@   assigns new(valueProperty)
+//@   ensures [value] result0 == lookup(old(heap[valueProperty.chain]), old(heap[valueProperty.key]), old(heap[valueProperty.val]), ps, key)
+//@   ensures [ok] chainOK(heap[valueProperty.chain], heap[valueProperty.key], heap[valueProperty.val], result1)
+//@   ensures [others] forall k Iface :: {lookup(heap[valueProperty.chain], heap[valueProperty.key], heap[valueProperty.val], result1, k)} k != key ==> lookup(heap[valueProperty.chain], heap[valueProperty.key], heap[valueProperty.val], result1, k) == lookup(old(heap[valueProperty.chain]), old(heap[valueProperty.key]), old(heap[valueProperty.val]), ps, k)
+//@   ensures [removed] lookup(heap[valueProperty.chain], heap[valueProperty.key], heap[valueProperty.val], result1, key) == nil
+//@   ensures [same-if-absent] lookup(old(heap[valueProperty.chain]), old(heap[valueProperty.key]), old(heap[valueProperty.val]), ps, key) == nil ==> result1 == ps
+//@   ensures [new-if-present] lookup(old(heap[valueProperty.chain]), old(heap[valueProperty.key]), old(heap[valueProperty.val]), ps, key) != nil ==> result1 != ps
+//@   ensures [older] isvp(result1) ==> vp(result1).base < alloc
+//@   entry unfold chainOK(heap[valueProperty.chain], heap[valueProperty.key], heap[valueProperty.val], ps)
+//@   entry unfold forall k Iface :: lookup(heap[valueProperty.chain], heap[valueProperty.key], heap[valueProperty.val], ps, k)
+//@   entry unfold chainOK(heap[valueProperty.chain], heap[valueProperty.key], heap[valueProperty.val], vchain(heap[valueProperty.chain], ps))
+//@   entry unfold forall k Iface :: lookup(heap[valueProperty.chain], heap[valueProperty.key], heap[valueProperty.val], vchain(heap[valueProperty.chain], ps), k)
+//@   call stripReturnValue after label L1
+//@   call stripReturnValue after use chain_frame(old(heap[valueProperty.chain]), old(heap[valueProperty.key]), old(heap[valueProperty.val]), heap[valueProperty.chain], heap[valueProperty.key], heap[valueProperty.val], ps, old(alloc))
+//@   exit use chain_frame(old(heap[valueProperty.chain]), old(heap[valueProperty.key]), old(heap[valueProperty.val]), heap[valueProperty.chain], heap[valueProperty.key], heap[valueProperty.val], ps, old(alloc))
+//@   exit use chain_frame(at(L1, heap[valueProperty.chain]), at(L1, heap[valueProperty.key]), at(L1, heap[valueProperty.val]), heap[valueProperty.chain], heap[valueProperty.key], heap[valueProperty.val], rest, at(L1, alloc))
+//@   exit unfold chainOK(heap[valueProperty.chain], heap[valueProperty.key], heap[valueProperty.val], result1)
+//@   exit unfold forall k Iface :: lookup(heap[valueProperty.chain], heap[valueProperty.key], heap[valueProperty.val], result1, k)
+
+
+//@ globalinv ErrMissingPropertyHolder != nil @C12
+//@ globalinv noProperty != nil @C12
+
+//@ func (*propertyImpl).SetProperty
+//@   tags C12,C09
+//@   requires pi != nil ==> chainOK(heap[valueProperty.chain], heap[valueProperty.key], heap[valueProperty.val], pi.properties)
+//@   requires [key-usable] pi != nil ==> key != nil && comparable(dyn(key))
+//@   assigns pi.properties, new(valueProperty)
+//@   ensures [nil-holder] pi == nil ==> result != nil
+//@   ensures [ok] pi != nil ==> result == nil && chainOK(heap[valueProperty.chain], heap[valueProperty.key], heap[valueProperty.val], pi.properties)
+//@   ensures [map-eq-unset] pi != nil && value == nil ==> forall k Iface :: {lookup(heap[valueProperty.chain], heap[valueProperty.key], heap[valueProperty.val], pi.properties, k)} lookup(heap[valueProperty.chain], heap[valueProperty.key], heap[valueProperty.val], pi.properties, k) == (k == key ? nil : lookup(old(heap[valueProperty.chain]), old(heap[valueProperty.key]), old(heap[valueProperty.val]), old(pi.properties), k))
+//@   ensures [map-eq-set] pi != nil && value != nil ==> forall k Iface :: {lookup(heap[valueProperty.chain], heap[valueProperty.key], heap[valueProperty.val], pi.properties, k)} lookup(heap[valueProperty.chain], heap[valueProperty.key], heap[valueProperty.val], pi.properties, k) == (k == key ? value : lookup(old(heap[valueProperty.chain]), old(heap[valueProperty.key]), old(heap[valueProperty.val]), old(pi.properties), k))
+//@   call stripReturnValue after label S1
+//@   exit use chain_frame(at(S1, heap[valueProperty.chain]), at(S1, heap[valueProperty.key]), at(S1, heap[valueProperty.val]), heap[valueProperty.chain], heap[valueProperty.key], heap[valueProperty.val], remainder, at(S1, alloc))
+//@   exit unfold chainOK(heap[valueProperty.chain], heap[valueProperty.key], heap[valueProperty.val], pi.properties)
+//@   exit unfold forall k Iface :: lookup(heap[valueProperty.chain], heap[valueProperty.key], heap[valueProperty.val], pi.properties, k)
